@@ -297,6 +297,16 @@ class GatedProxy(StdoutProxy):
             self.rig.fl_at = ("exited",)
             self.rig.fl_arrived.set()
 
+    def _write(self, data):
+        if not self._lock._is_owned():
+            self.rig.notes.append("unlocked-write")
+        return super()._write(data)
+
+    def _flush(self):
+        if not self._lock._is_owned():
+            self.rig.notes.append("unlocked-flush")
+        return super()._flush()
+
     def _get_app_loop(self):
         self.rig.gate("getloop")
         loop = super()._get_app_loop()
@@ -315,7 +325,7 @@ class GatedProxy(StdoutProxy):
 class Rig:
     """One real StdoutProxy + output + (optionally) application and loops, under harness control."""
 
-    def __init__(self, raw=False, session="default", gated=True, sleep=0.0):
+    def __init__(self, raw=False, session="default", gated=True, sleep=0.0, via_patch=False):
         self.tl = threading.local()
         self.events = []
         self.ev_pos = 0
@@ -339,6 +349,7 @@ class Rig:
         self.writers = {}
         self.close_thread = None
         self.session_mode = session
+        self._patch_cm = None
         self.out = RecOutput(self)
         self._sess_cm = None
         self._saved = None
@@ -354,6 +365,11 @@ class Rig:
             if gated:
                 self.proxy = GatedProxy(self, sleep_between_writes=sleep, raw=raw)
                 self.wait_fl()
+            elif via_patch:
+                # the public entry point: `with patch_stdout(): ...`, writers use sys.stdout
+                self._patch_cm = PS.patch_stdout(raw=raw)
+                self._patch_cm.__enter__()
+                self.proxy = sys.stdout
             else:
                 self.proxy = StdoutProxy(sleep_between_writes=sleep, raw=raw)
         except BaseException:
@@ -592,7 +608,10 @@ class Rig:
         if getattr(self, "proxy", None) is not None:
             def close_proxy():
                 if self.close_thread is None:
-                    self.close_thread = threading.Thread(target=self.proxy.close, daemon=True)
+                    target = self.proxy.close
+                    if self._patch_cm is not None:
+                        target = lambda: self._patch_cm.__exit__(None, None, None)
+                    self.close_thread = threading.Thread(target=target, daemon=True)
                     self.close_thread.start()
                 self.close_thread.join(TIMEOUT)
                 if self.close_thread.is_alive():
@@ -780,6 +799,7 @@ SIG_STREAM = "StdoutProxy | output differs from the writes in lock order"
 SIG_BRACKET = "in_terminal | text written while the prompt is drawn (no erase/redraw around it)"
 SIG_STUCK = "StdoutProxy | flushed text never reaches the output"
 SIG_OVERLAP = "in_terminal | sections overlap or the prompt is drawn inside a section"
+SIG_LOCK = "StdoutProxy.write/flush | line buffer touched without holding the lock"
 SIG_RIG = "harness | rig error"
 
 
@@ -880,6 +900,8 @@ def oracle_proxy(case):
             rec.get("queue_left"), rec.get("buffer_left"), rec.get("fl_pc"))})
     for sig, msg in check_bracket(tl, rec.get("notes", ())):
         v.append({"signature": sig, "msg": msg})
+    if any(n.startswith("unlocked") for n in rec.get("notes", ())):
+        v.append({"signature": SIG_LOCK, "msg": "the re-entrant lock is not held inside _write/_flush"})
     seen, out = set(), []
     for x in v:
         if x["signature"] not in seen:
@@ -1054,9 +1076,11 @@ def run_soak_case(case):
     mode = case["mode"]
     writes = case["writes"]
     rig = Rig(raw=bool(case.get("raw", 0)), session=case.get("session", "default"), gated=False,
-              sleep=case.get("sleep", 0.0))
+              sleep=case.get("sleep", 0.0), via_patch=case.get("via") == "patch")
     rec = {"errors": [], "mode": mode}
+    old_switch = sys.getswitchinterval()
     try:
+        sys.setswitchinterval(1e-5)       # force frequent preemption between bytecodes
         if mode != "noapp":
             rig.new_loop()
             rig.start_app()
@@ -1091,6 +1115,7 @@ def run_soak_case(case):
         rec["errors"].append("timeout: " + str(e))
         rec["timeline"] = list(rig.events)
     finally:
+        sys.setswitchinterval(old_switch)
         rec["errors"] += rig.teardown()
     out_text = "".join(e[2] for e in emissions(rec["timeline"]))
     rec["out"] = out_text
@@ -1276,7 +1301,7 @@ def random_chain(rng, nops):
     return {"kind": "chain", "session": rng.choice(["default", "custom"]), "ops": ops}
 
 
-def soak_case(rng, mode):
+def soak_case(rng, mode, via="proxy"):
     nthreads = rng.choice([2, 3, 4, 6])
     writes = []
     for t in range(nthreads):
@@ -1289,7 +1314,7 @@ def soak_case(rng, mode):
         writes.append(ws)
     return {"kind": "soak", "mode": mode, "writes": writes, "raw": rng.choice([0, 1]),
             "session": rng.choice(["default", "custom"]), "sleep": rng.choice([0.0, 0.0, 0.001]),
-            "cycles": rng.choice([1, 2, 3])}
+            "cycles": rng.choice([1, 2, 3]), "via": via}
 
 
 def cases(tier, rng):
@@ -1306,9 +1331,13 @@ def cases(tier, rng):
     if not quick:
         for i in range(240):
             yield soak_case(rng, ["noapp", "app", "startstop"][i % 3])
+        for i in range(12):
+            yield soak_case(rng, ["noapp", "app"][i % 2], via="patch")
     else:
         for i in range(6):
             yield soak_case(rng, ["noapp", "app", "startstop"][i % 3])
+        yield soak_case(rng, "noapp", via="patch")
+        yield soak_case(rng, "app", via="patch")
 
 
 def nontrivial(case):
